@@ -470,6 +470,13 @@ class MutationAnalysis:
                 roots = self._taint(fi, base, st)
                 if roots:
                     emit("write", roots, t, "store into a value that may alias the argument")
+                b0 = base
+                while isinstance(b0, (ast.Subscript, ast.Attribute)):
+                    b0 = b0.value
+                if isinstance(b0, ast.Name) and rec:
+                    r0 = self.lk.resolve(fi.module, b0)
+                    if r0.kind == "global":
+                        events.append(Event("global-write", b0.id, t, "store into a module-level object (state kept between calls)"))
                 # dtype hazard: store of a float-valued expression into an array that inherits the argument's dtype
                 b = base
                 while isinstance(b, ast.Subscript):
